@@ -11,6 +11,7 @@ import Proofs.GoTieDecrypt
 import Proofs.GoTieNative
 import Proofs.GoTieSshRsa
 import Props.C01
+import Proofs.GoTieSsh
 namespace AgeModel
 namespace Tie.C01
 
@@ -81,6 +82,40 @@ theorem code_x25519_wrap_unwrap (P : Prims) (hP : P.Correct) {κ : Type} (E : Go
     rfl
   · obtain ⟨r, hrun, hcls⟩ := x25519_unwrap_tie P E sk st
     exact ⟨r, hrun, by rw [hcls, Props.C01.x25519_wrap_unwrap P hP sk pk eph fk st hpk hfk hw]⟩
+
+/-- the same for `ssh-ed25519`: the stanza the translated `(*Ed25519Recipient).Wrap` produces for the Montgomery form `pk`
+    of an SSH key is opened by the translated `(*Ed25519Identity).unwrap` holding the matching scalar to the file key -/
+theorem code_sshEd_wrap_unwrap (P : Prims) (hP : P.Correct) {κ π : Type} (E : GoTie.SshEnv P κ π) (key : π)
+    (sk pk fk tape : Bytes) (hpk : P.x25519 sk P.basepoint = some pk)
+    (eph t : Bytes) (hd : draw 32 tape = some (eph, t)) (st : Format.Stanza) (hw : wrapSshEd P (E.wire key) pk eph fk = some st) :
+    Extracted.agessh_Ed25519Recipient_Wrap (GoTie.tapeRead E.eRand) E.X P.basepoint E.H E.Mar E.R E.Fp E.Enc E.Seal ⟨key, pk⟩ fk tape =
+        .ok ([GoTie.toGoStanza st], none, t) ∧
+      ∃ r, Extracted.agessh_Ed25519Identity_unwrap E.D E.Fp E.X E.H E.Mar E.R E.OpenS ⟨sk, (P.x25519 sk P.basepoint).getD [], key⟩
+          (GoTie.toGoStanza st) = .ok r ∧ GoTie.resClass r = .key fk := by
+  constructor
+  · obtain ⟨res, hrun, hres⟩ := GoTie.sshEd_wrap_tie P E key pk fk tape
+    simp only [wrapOne, hd, hw, Option.map_some] at hres
+    rw [hrun, hres.1]
+    rfl
+  · obtain ⟨r, hrun, hcls⟩ := GoTie.sshEd_unwrap_tie P E key sk st
+    exact ⟨r, hrun, by rw [hcls, Props.C01.sshed_wrap_unwrap P hP (E.wire key) sk pk eph fk st hpk hw]⟩
+
+/-- and for `ssh-rsa`: what the translated `(*RSARecipient).Wrap` produces under a public key is opened by the translated
+    `(*RSAIdentity).unwrap` holding the matching private key (`P.rsaPair`) to the file key -/
+theorem code_sshRsa_wrap_unwrap (P : Prims) (hP : P.Correct) {π β γ : Type} (E : GoTie.RsaEnv P π β γ) (key : π) (pub : β) (priv : γ)
+    (fk tape : Bytes) (hpair : P.rsaPair (E.pubOf pub) (E.privOf priv))
+    (seed t : Bytes) (hd : draw 32 tape = some (seed, t)) (st : Format.Stanza)
+    (hw : wrapSshRsa P (E.wire key) (E.pubOf pub) seed fk = some st) :
+    Extracted.agessh_RSARecipient_Wrap E.Fp E.EncO ⟨key, pub⟩ fk tape = .ok ([GoTie.toGoStanza st], none, t) ∧
+      ∃ r, Extracted.agessh_RSAIdentity_unwrap E.Fp E.DecO ⟨priv, key⟩ (GoTie.toGoStanza st) = .ok r ∧
+        GoTie.resClass r = .key fk := by
+  constructor
+  · obtain ⟨res, hrun, hres⟩ := GoTie.sshRsa_wrap_tie P E key pub fk tape
+    simp only [wrapOne, hd, hw, Option.map_some] at hres
+    rw [hrun, hres.1]
+    rfl
+  · obtain ⟨r, hrun, hcls⟩ := GoTie.sshRsa_unwrap_tie P E key priv st
+    exact ⟨r, hrun, by rw [hcls, Props.C01.sshrsa_wrap_unwrap P hP (E.wire key) (E.pubOf pub) (E.privOf priv) seed fk st hpair hw]⟩
 
 end Tie.C01
 end AgeModel
